@@ -674,7 +674,8 @@ def monitor_history(ops, obs, elem_size=8):
                         fails.append((i, ["C05"], "block b%d requested as %s freed as %s" % (b, live[b], (p[2], p[3]))))
                     del live[b]
                 if owners(post, b) != 0:
-                    fails.append((i, ["C01", "C02"], "block b%d freed while %d owning handle(s) remain" % (b, owners(post, b))))
+                    # C05: "when the LAST handle goes away ... exactly that block is returned to the allocator"
+                    fails.append((i, ["C01", "C02", "C05"] + (["C07"] if st.startswith("panic") else []), "block b%d freed while %d owning handle(s) remain" % (b, owners(post, b))))
             elif p[0] == "drop":
                 if p[1] in dropped:
                     fails.append((i, ["C01", "C06", "C07", "C02"], "value %s destroyed twice" % p[1]))
@@ -1058,7 +1059,11 @@ def split_histories(lines, ops_all):
     return res
 
 
-def run_impl_resilient(harness_exe, histories, timeout=600):
+IMPL_BATCH_TIMEOUT = 60      # a healthy batch takes seconds; a harness that spins (count underflow on a broken tree) must not cost an hour
+MAX_HANGS = 2
+
+
+def run_impl_resilient(harness_exe, histories, timeout=IMPL_BATCH_TIMEOUT):
     """run the harness on a list of histories; if the process dies in history k (a crash is an
     observation, not a machinery failure), record it and continue with k+1.. in a fresh process.
     returns (per-history line lists, [(history index, rc)])"""
@@ -1066,6 +1071,7 @@ def run_impl_resilient(harness_exe, histories, timeout=600):
     crashes = []
     start = 0
     start_stuck = False
+    hangs = 0
     while start < len(histories):
         text = "\n".join("\n".join(h) for h in histories[start:]) + "\n"
         lines, rc = run_batch(harness_exe, text, timeout)
@@ -1093,6 +1099,12 @@ def run_impl_resilient(harness_exe, histories, timeout=600):
         start_stuck = False
         crashes.append((k, rc))
         start = k + 1
+        if rc == -999:
+            hangs += 1
+            if hangs >= MAX_HANGS:
+                # the harness hung (did not finish a batch in time) several times: the remaining histories of this chunk are
+                # not evaluated; the hangs themselves are recorded as crashes (observations)
+                break
     return [o if o is not None else [] for o in out], crashes
 
 
